@@ -73,7 +73,77 @@ def _label(i):
     return Bits((("d", i, k) for k in range(DW)))
 
 
+def _join(a, b):
+    """Amaranth's result shape of a bitwise operation / Mux on operands of shapes a, b = (signed, width)."""
+    (sa, wa), (sb, wb) = a, b
+    if sa == sb:
+        return (sa, max(wa, wb))
+    if sa:  # a signed, b unsigned: b needs one more bit
+        return (True, max(wa, wb + 1))
+    return (True, max(wa + 1, wb))
+
+
+def one_hot_mux_shape(ctx):
+    """The value selected keeps its shape: every arm that is OR-ed into the result has the shape of the data (the bit-level
+    evaluation above does not see signedness).  Mux(sel, data, C(0, 0)) has it; data & sel.replicate(len(data)) is one bit
+    wider and signed for signed data, so a negative input comes out as value + 2**width in a wider consumer.  Decided with
+    Amaranth's shape rules on the arm expression for signed and unsigned data of width 1..4."""
+    fn = Fn(ctx.repo, FUNCS, "one_hot_mux", "C38")
+    arms = []
+    for ex in fn.exs:
+        for r in ex.of(Return):
+            if r.callid is not None:
+                continue
+            m = pmatch("Q_c(or_value(Q_g))", r.value)
+            if m is not None and m["g"][0] == "lc" and len(m["g"][3]) == 1:
+                arms.append((ex, r, m["g"][2], m["g"][3][0][0]))
+    ctx.floor("C38", "one_hot_mux result arms", len(arms), 1, fn.site)
+    for ex, r, arm, b in arms[:1]:
+        b = b[0] if isinstance(b, tuple) and b and isinstance(b[0], tuple) else b
+
+        def shape(t, data):
+            if t[0] == "i" and t[2] == b:
+                base = ex.vardef(t[1]) or t[1]
+                txt = tstr(t[1])
+                if "sel" in txt:
+                    return (False, 1)
+                return data
+            if t[0] == "call":
+                f, a = t[1], t[2]
+                if f == ("n", "Mux") and len(a) == 3:
+                    return _join(shape(a[1], data), shape(a[2], data))
+                if f in (("n", "C"), ("n", "Const")) and len(a) == 2 and a[1][0] == "c" and isinstance(a[1][1], int):
+                    return (False, a[1][1])
+                if f[0] == "a" and f[2] == "replicate" and len(a) == 1:
+                    inner = shape(f[1], data)
+                    n = a[0]
+                    if pmatch("len(Q_x)", n) is not None:
+                        return (False, inner[1] * shape(pmatch("len(Q_x)", n)["x"], data)[1])
+                    if n[0] == "c":
+                        return (False, inner[1] * n[1])
+                if f[0] == "a" and f[2] in ("as_unsigned", "as_signed") and not a:
+                    return (f[2] == "as_signed", shape(f[1], data)[1])
+            if t[0] == "op" and t[1] in ("&", "|", "^") and len(t) == 4:
+                return _join(shape(t[2], data), shape(t[3], data))
+            raise NotEvaluable(tstr(t)[:60])
+
+        bad = None
+        try:
+            for signed in (False, True):
+                for w in range(1, 5):
+                    got = shape(arm, (signed, w))
+                    if got != (signed, w):
+                        bad = f"data {'signed' if signed else 'unsigned'}({w}) -> arm {'signed' if got[0] else 'unsigned'}({got[1]})"
+                        break
+                if bad:
+                    break
+        except NotEvaluable as e:
+            raise AnalysisError("C38.one-hot-mux-shape", fn.site, f"arm outside the shape calculus: {e}")
+        ctx.check(bad is None, "C38.one-hot-mux-shape", r.site, "one_hot_mux.arm", found=bad or f"{tstr(arm)[:80]}: shape preserved", required="every arm of the result has the shape of the data it selects")
+
+
 def one_hot_mux_semantics(ctx):
+    one_hot_mux_shape(ctx)
     fn = Fn(ctx.repo, FUNCS, "one_hot_mux", "C38")
     ev = Evaluator(ctx.repo, FUNCS, "C38")
     ev.builtins.update(_mux_builtins())
